@@ -17,3 +17,15 @@ def run(chk):
     res = vlib.run_tlc("MC_C01", cfg_text=cfg, timeout=3000, heap="16g")
     chk.add_tlc(res, "MC_C01")
     dt.replay(chk, res.cases, "C01", cli_sample=200 if quick else 2000)
+    # the affects validator itself: every context of blocks x names x touch state x reference shape
+    from props import affects_replay as ar
+    r2 = vlib.run_tlc("MC_Affects", timeout=3000, heap="16g")
+    chk.add_tlc(r2, "MC_Affects (2 blocks, all reference shapes)")
+    cs = r2.cases
+    chk.rng.shuffle(cs)
+    ar.replay(chk, cs[:6000 if quick else len(cs)], "af2-")
+    r3 = vlib.run_tlc("MC_Affects", cfg="MC_Affects3", timeout=3000, heap="16g")
+    chk.add_tlc(r3, "MC_Affects3 (3 blocks, duplicate names)")
+    cs = r3.cases
+    chk.rng.shuffle(cs)
+    ar.replay(chk, cs[:8000 if quick else len(cs)], "af3-")
